@@ -180,7 +180,7 @@ func (w *supWorld) runnable(spec *svcSpec, parent func() *incarnation) Runnable 
 			}
 		}
 		wait := func() (cancelled bool) {
-			if !hasPlan {
+			if !hasPlan || plan.kind == 4 {
 				<-ctx.Done()
 				return true
 			}
@@ -200,9 +200,19 @@ func (w *supWorld) runnable(spec *svcSpec, parent func() *incarnation) Runnable 
 				w.stats.Probe("slow-exit")
 				w.mu.Unlock()
 			}
+			if hasPlan && plan.kind == 4 {
+				// cancelled (its group is being restarted or the supervisor shuts down) and then panics
+				// while winding down: a death like any other
+				w.mu.Lock()
+				inc.failed, inc.failedAt, inc.failKind = true, w.now(), 4
+				w.stats.Fault("service-panics-while-winding-down")
+				w.ev("fail %s #%d kind=4", spec.dn, inc.n)
+				w.mu.Unlock()
+				panic("scripted panic after cancel")
+			}
 			return ctx.Err()
 		}
-		if spec.preHealth && hasPlan {
+		if spec.preHealth && hasPlan && plan.kind != 4 {
 			if wait() {
 				return leave()
 			}
@@ -212,6 +222,9 @@ func (w *supWorld) runnable(spec *svcSpec, parent func() *incarnation) Runnable 
 			return fail()
 		}
 		Signal(ctx, SignalHealthy)
+		if spec.kind != 0 && hasPlan && plan.kind == 4 {
+			hasPlan = false // a set-up-only service does not wait to be cancelled
+		}
 		if spec.kind == 2 && hasPlan && (plan.kind == 0 || plan.kind == 2) {
 			// says it is done and then does not return cleanly: a failure like any other
 			Signal(ctx, SignalDone)
@@ -318,6 +331,23 @@ func (w *supWorld) finalChecks(end time.Duration) {
 				if p.failed && p.failedAt <= deadline || p.exited && p.exitAt <= deadline && !p.doneOK {
 					void = true
 				}
+				// ... unless a member of the done parent's own group failed meanwhile: that cancels the
+				// group's contexts, the done parent's included (it is "left alone", i.e. not started
+				// again), and with it everything below it
+				if p.doneOK {
+					if ps := w.specs[parentDN(p.spec.dn)]; ps != nil {
+						for _, sib := range ps.children {
+							if sib == p.spec || sib.group != p.spec.group {
+								continue
+							}
+							for _, si := range w.incs[sib.dn] {
+								if si.parent == p.parent && si.failed && si.failedAt <= deadline {
+									void = true
+								}
+							}
+						}
+					}
+				}
 			}
 			if void {
 				continue
@@ -395,6 +425,9 @@ func (supHarness) Gen(seed uint64, prop, tier string) *simkit.Program {
 	if r.P(0.2) {
 		p.Cfg["propagate"] = 1
 	}
+	if r.P(0.15) {
+		p.Cfg["rootdone"] = 1
+	}
 	var dns []string
 	var build func(parent string, depth int)
 	build = func(parent string, depth int) {
@@ -437,7 +470,7 @@ func (supHarness) Gen(seed uint64, prop, tier string) *simkit.Program {
 		if r.P(0.07) {
 			dn = "root"
 		}
-		kind := int64(r.Pick(4, 3, 3, 2))
+		kind := int64(r.Pick(4, 3, 3, 2, 2))
 		if p.Cfg["propagate"] == 1 && kind >= 2 {
 			kind = 0
 		}
@@ -458,6 +491,9 @@ func (h supHarness) Exec(p *simkit.Program) *simkit.Result {
 	res := &simkit.Result{Seed: p.Seed, Prop: p.Prop, Steps: len(p.Steps)}
 	w := &supWorld{res: res, stats: simkit.NewStats(), specs: map[string]*svcSpec{}, running: map[string]int{}, incs: map[string][]*incarnation{}}
 	root := &svcSpec{dn: "root", name: "root", fails: map[int]failPlan{}}
+	if p.C("rootdone", 0) == 1 {
+		root.kind = 1 // the root only sets its children up, signals done and returns
+	}
 	w.specs["root"] = root
 	for _, st := range p.Steps {
 		if st.Op != "svc" || st.X == "" || w.specs[st.X] != nil {
@@ -487,7 +523,7 @@ func (h supHarness) Exec(p *simkit.Program) *simkit.Result {
 		if after <= 0 {
 			after = time.Microsecond
 		}
-		kind := int(st.C) % 4
+		kind := int(st.C) % 5
 		if kind < 0 {
 			kind = 0
 		}
